@@ -96,7 +96,9 @@ func writeSMT(o *Obligation, path string, axioms []*Term, forCVC5 bool, getValue
 			scan = append(scan, d.T)
 		}
 	}
-	insts := bytesStoreInstances(scan)
+	rf := rowFrameInstances(scan, o.RowFrames, defByName)
+	scan = append(scan, rf...)
+	insts := append(rf, bytesStoreInstances(scan)...)
 	for _, t := range insts {
 		collectSyms(t, bound, syms, sorts)
 	}
@@ -806,4 +808,86 @@ func hasSkolem(t *Term) bool {
 		}
 	}
 	return false
+}
+
+// rowFrame: row na equals row old outside [lo, hi) (a havocked slice range, "modifies s[a:b]").
+type rowFrame struct{ na, old, lo, hi *Term }
+
+// rowFrameInstances: ground instances of "bytes$(na, o, n) = bytes$(old, o, n) when [o, o+n) misses [lo, hi)".
+func rowFrameInstances(terms []*Term, frames []rowFrame, defs map[string]*Def) []*Term {
+	if len(frames) == 0 {
+		return nil
+	}
+	type bt struct{ x, o, n *Term }
+	var bys []bt
+	seen := map[string]bool{}
+	var walk func(t *Term, inQ bool)
+	walk = func(t *Term, inQ bool) {
+		if t.Op == "forall" || t.Op == "exists" {
+			inQ = true
+		}
+		if !inQ && t.Op == "app" && t.Name == "bytes$" {
+			k := t.String()
+			if !seen[k] {
+				seen[k] = true
+				bys = append(bys, bt{t.Args[0], t.Args[1], t.Args[2]})
+			}
+		}
+		for _, a := range t.Args {
+			walk(a, inQ)
+		}
+	}
+	for _, t := range terms {
+		walk(t, false)
+	}
+	var out []*Term
+	for round := 0; round < 6 && len(bys) > 0 && len(out) < 300; round++ {
+		var nb []bt
+		for _, b := range bys {
+			for _, f := range frames {
+				if !termEq(resolveRow(b.x, defs), f.na) {
+					continue
+				}
+				var outside *Term
+				if b.o.Sort.IsBV() {
+					outside = Or(bvCmp("bvsle", bvBin("bvadd", b.o, b.n), f.lo), bvCmp("bvsle", f.hi, b.o))
+				} else {
+					outside = Or(ILe(IAdd(b.o, b.n), f.lo), ILe(f.hi, b.o))
+				}
+				nt := App("bytes$", SBytes, f.old, b.o, b.n)
+				out = append(out, Implies(outside, Eq(App("bytes$", SBytes, b.x, b.o, b.n), nt)))
+				k := nt.String()
+				if !seen[k] {
+					seen[k] = true
+					nb = append(nb, bt{f.old, b.o, b.n})
+				}
+			}
+		}
+		bys = nb
+	}
+	return out
+}
+
+// resolveRow: select(M, b) where M is a named store(M0, b, row) denotes row.
+func resolveRow(t *Term, defs map[string]*Def) *Term {
+	for i := 0; i < 8; i++ {
+		if t.Op != "select" || len(t.Args) != 2 {
+			return t
+		}
+		m := t.Args[0]
+		if m.Op == "var" {
+			if d, ok := defs[m.Name]; ok {
+				m = d.T
+			}
+		}
+		if m.Op != "store" {
+			return t
+		}
+		n := Select(m, t.Args[1])
+		if termEq(n, t) {
+			return t
+		}
+		t = n
+	}
+	return t
 }
